@@ -4,4 +4,11 @@ import BB.Props.C05
 #print axioms BB.Segment.seg_spinout_true
 #print axioms BB.Segment.seg_repeat_forever
 #print axioms BB.Segment.init_exact
+#print axioms BB.Segment.seg_refuted_sound_halt
+#print axioms BB.Segment.seg_refuted_sound_spinout
+#print axioms BB.Segment.seg_blank_never_refuted
+#print axioms BB.Segment.seg_refuted_sound_blank
+#print axioms BB.Segment.seg_refuted_sound
+#print axioms BB.Segment.py_segment_fixed_sound
+#print axioms BB.Segment.seg_refuted_needs_positive_params
 #print axioms BB.Segment.seg_cant_halt_F2_witness
